@@ -14,10 +14,12 @@ pub mod cal;
 pub mod json;
 pub mod rep;
 pub mod rng;
+pub mod tzmon;
 pub mod tzref;
 pub mod zones;
 
 mod c01;
+mod c03;
 
 fn main() {
     let args: Vec<String> = std::env::args().skip(1).collect();
@@ -44,6 +46,10 @@ fn main() {
         },
         "c01" => {
             c01::run(&mut cx);
+            cx.finish()
+        }
+        "c03" => {
+            c03::run(&mut cx);
             cx.finish()
         }
         other => {
